@@ -433,6 +433,20 @@ def _module_object_case(case):
             obj = sc.snapshot_str(*graph_snapshot(get_evaluable_architecture_for_module_objects(rm, mm, **kw)))
         except Exception as e:  # noqa: BLE001
             obj = "ERR:" + err_kind(e)
+        if path == obj and not path.startswith("ERR"):
+            # the tree changes (a new module below module_path), the SAME module objects and options are used again: the
+            # architecture is built from the files as they are now
+            import os
+
+            with open(os.path.join(proj.path(mp), "zz_added_later.py"), "w") as f:
+                f.write("import os\n")
+            path = sc.real_scan(proj, "proj", mp, **kw)
+            try:
+                obj = sc.snapshot_str(*graph_snapshot(get_evaluable_architecture_for_module_objects(rm, mm, **kw)))
+            except Exception as e:  # noqa: BLE001
+                obj = "ERR:" + err_kind(e)
+            if path != obj:
+                obj = "AFTER-EDIT:" + obj
     return path, obj
 
 
@@ -473,7 +487,9 @@ def module_object_options(ctx, stream, n):
             stream.nontrivial.add(digest((sorted(tree.items()), mp, sorted(kw.items()), plain)))
         if path != obj:
             ctx.violations.append({"kind": "property-violation",
-                                   "what": "the module-object entry point builds a different architecture than the path entry point called with the same options",
+                                   "what": ("after a file was added below module_path, a second call of the module-object entry point with the same module objects and options still builds the old architecture"
+                                            if obj.startswith("AFTER-EDIT:") else
+                                            "the module-object entry point builds a different architecture than the path entry point called with the same options"),
                                    "files": tree, "module_path": mp, "options": {k: list(v) if isinstance(v, tuple) else v for k, v in kw.items()},
                                    "module___file__": plain or "__init__.py", "path_entry": path, "module_object_entry": obj})
             if len(ctx.violations) >= 3:
